@@ -87,6 +87,10 @@ def short_callee(name):
     if _QUAL is None:
         _QUAL = re.compile(r"^<(.+) as (.+)>::(\w+)$")
     name = name or "?"
+    mi = re.search(r"::<impl (.+) for (.+)>::(\w+)$", name)
+    if mi:
+        tr = mi.group(1).split("<", 1)[0].rsplit("::", 1)[-1]
+        return "%s::%s" % (tr, mi.group(3))
     m = _QUAL.match(name)
     if m:
         tr = m.group(2).split("<", 1)[0].rsplit("::", 1)[-1]
